@@ -1,0 +1,136 @@
+//go:build verif
+// +build verif
+
+package service
+
+import (
+	"sort"
+
+	"com.tuntun.rangers/node/src/common"
+	"com.tuntun.rangers/node/src/middleware/db"
+	"com.tuntun.rangers/node/src/middleware/log"
+	"com.tuntun.rangers/node/src/middleware/types"
+	"github.com/gogf/gf/container/gmap"
+	lru "github.com/hashicorp/golang-lru"
+)
+
+// Verification hooks H6 (build tag verif only): constructor of an independent
+// transaction pool and read-only dumps of its containers.  No behaviour of their own.
+
+// Constants of the pool, exported for the harness.
+const (
+	VerifTxCountPerBlock = txCountPerBlock
+	VerifRcvTxPoolSize   = rcvTxPoolSize
+)
+
+// VerifNewTxPool builds a fresh TxPool that shares nothing with the process-wide
+// instance: own pending container, own evicted cache, executed records in the
+// database handed in (newTransactionPool opens the LevelDB store "tx" instead).
+//
+// With expiry=true the pending container is built by newSimpleContainer (which
+// starts the never-ending one-minute expiry goroutine); with expiry=false the
+// same fields are set up without that goroutine and without the unused "tx_list_"
+// database handle, so that millions of short-lived pools do not leak goroutines.
+func VerifNewTxPool(executed db.Database, expiry bool) *TxPool {
+	pool := &TxPool{}
+	if expiry {
+		pool.received = newSimpleContainer(rcvTxPoolSize)
+	} else {
+		pool.received = &simpleContainer{
+			data:  gmap.NewListMap(true),
+			limit: rcvTxPoolSize,
+		}
+	}
+	pool.evictedTxs, _ = lru.New(txCacheSize)
+	pool.executed = executed
+	pool.batch = pool.executed.NewBatch()
+	return pool
+}
+
+// VerifPending returns the pending container content in container order:
+// the keys and, index-aligned, the stored transactions.
+func (pool *TxPool) VerifPending() ([]common.Hash, []*types.Transaction) {
+	keys := make([]common.Hash, 0)
+	txs := make([]*types.Transaction, 0)
+	pool.received.data.Iterator(func(k interface{}, v interface{}) bool {
+		h, _ := k.(common.Hash)
+		tx, _ := v.(*types.Transaction)
+		keys = append(keys, h)
+		txs = append(txs, tx)
+		return true
+	})
+	return keys, txs
+}
+
+// VerifPendingAges returns the keys of the expiry bookkeeping map (sorted).
+func (pool *TxPool) VerifPendingAges() []common.Hash {
+	keys := make([]common.Hash, 0)
+	pool.received.txAnnualRingMap.Range(func(k, v interface{}) bool {
+		h, _ := k.(common.Hash)
+		keys = append(keys, h)
+		return true
+	})
+	sort.Slice(keys, func(i, j int) bool { return string(keys[i][:]) < string(keys[j][:]) })
+	return keys
+}
+
+// VerifEvicted returns the hashes in the evicted cache, oldest first.
+func (pool *TxPool) VerifEvicted() []common.Hash {
+	out := make([]common.Hash, 0)
+	for _, k := range pool.evictedTxs.Keys() {
+		if h, ok := k.(common.Hash); ok {
+			out = append(out, h)
+		}
+	}
+	return out
+}
+
+// VerifExecutedDB returns the database holding the executed records.
+func (pool *TxPool) VerifExecutedDB() db.Database { return pool.executed }
+
+// VerifExecutedHashes returns the sorted keys of all executed records (32-byte keys
+// of the executed database; the gate-nonce entry under key "tx" is not a record).
+func (pool *TxPool) VerifExecutedHashes() []common.Hash {
+	out := make([]common.Hash, 0)
+	switch d := pool.executed.(type) {
+	case *db.MemDatabase:
+		for _, k := range d.Keys() {
+			if len(k) == common.HashLength {
+				out = append(out, common.BytesToHash(k))
+			}
+		}
+	case *db.PrefixedDatabase:
+		it := d.NewIterator()
+		for it.Next() {
+			k := it.Key()
+			if len(k) >= common.HashLength {
+				k = k[len(k)-common.HashLength:]
+				if ok, _ := d.Has(k); ok {
+					out = append(out, common.BytesToHash(k))
+				}
+			}
+		}
+		it.Release()
+	default:
+		it := d.NewIterator()
+		for it.Next() {
+			if k := it.Key(); len(k) == common.HashLength {
+				out = append(out, common.BytesToHash(k))
+			}
+		}
+		it.Release()
+	}
+	sort.Slice(out, func(i, j int) bool { return string(out[i][:]) < string(out[j][:]) })
+	return out
+}
+
+// VerifBatchSize returns the number of value bytes waiting in the pool's write batch.
+func (pool *TxPool) VerifBatchSize() int { return pool.batch.ValueSize() }
+
+// VerifSetTxPoolLogger swaps the package's pool logger (the harness replays millions
+// of operations; the debug log of each would fill the scratch disk) and returns the old one.
+func VerifSetTxPoolLogger(l log.Logger) log.Logger {
+	old := txPoolLogger
+	txPoolLogger = l
+	return old
+}
